@@ -73,7 +73,11 @@ class DSim:
                 if t.buf and not t.lost and not t.closed:
                     acts.append(("data", t.link, t.end))
                     if len(t.buf[0]) > 1 and self.parts < 2:
+                        # TCP may split a chunk anywhere: representative split points (C12 decides every split point at the framer level)
                         acts.append(("part", t.link, t.end))
+                        if len(t.buf[0]) > 2:
+                            acts.append(("part", t.link, t.end, "butlast"))
+                            acts.append(("part", t.link, t.end, "first"))
             # a link in use by a side that is CONNECTED may be lost at any time (that side starts a new generation);
             # other links only while another attempt of the generation survives (the property's proviso)
             in_use_connected = any(p.link == a.link and w.sides[i].state() == "CONNECTED" for i in (0, 1) for (p, _) in w.selected(i))
@@ -98,14 +102,15 @@ class DSim:
                 if n not in self.listening and not self.stopped_req[1] and not self.peer_inert:
                     acts.append(("listen", n))
                 p = self.protos.get(n)
+                # a write after the local close must be refused in every later state of the subchannel, also once it is fully closed
+                if p is not None and n in self.closed and n not in self.wac:
+                    acts.append(("write_after_close", n))
                 if p is not None and any(e[0] == p.tag and e[1] == "connectionLost" for e in w.sides[0].applog):
                     p = None    # closed by the peer: the application has been told, further writes are its own error
                 if p is not None and n not in self.closed and self.nwrites[n] < 2:
                     acts.append(("write", n))
                 if p is not None and n not in self.closed:
                     acts.append(("close", n))
-                if p is not None and n in self.closed and n not in self.wac:
-                    acts.append(("write_after_close", n))
                 if self.both_write:
                     bp = self.peer_proto(n)
                     if bp is not None and n not in self.bclosed and self.bwrites[n] < 1:
@@ -154,7 +159,9 @@ class DSim:
                     if t.link == act[1] and t.end == act[2]:
                         if k == "part":
                             self.parts += 1
-                            w.deliver_data(t, max(1, len(t.buf[0]) // 2))
+                            mode = act[3] if len(act) > 3 else "half"
+                            n = len(t.buf[0])
+                            w.deliver_data(t, {"half": max(1, n // 2), "butlast": n - 1, "first": 1}[mode])
                         else:
                             w.deliver_data(t)
         elif k == "drain":
@@ -220,6 +227,7 @@ class DSim:
             except (core.Escape, core.Inconclusive, core._Abort, core.Counterexample):
                 raise
             except Exception as e:
+                core.check_leak(e)
                 self.wac[n] = "raised " + type(e).__name__
         elif k == "close":
             n = act[1]
